@@ -10,6 +10,8 @@ os.makedirs(dst, exist_ok=True)
 shutil.copy(f'{src}/patch.diff', f'{dst}/patch.diff')
 for f in glob.glob(f'{src}/*test.go.txt') + glob.glob(f'{src}/demo_output.txt') + glob.glob(f'{src}/RUN.txt'):
     shutil.copy(f, dst)
+if os.path.isdir(f'{src}/demo'):
+    shutil.copytree(f'{src}/demo', f'{dst}/demo', dirs_exist_ok=True, ignore=shutil.ignore_patterns('*.test','*.out'))
 meta = {}
 try:
     meta = json.load(open(f'{src}/meta.json'))
@@ -17,7 +19,7 @@ except Exception as e:
     meta = {'note': 'agent meta.json unreadable: %s' % e}
 meta['property'] = pid
 meta['confirmed_by_main'] = {
-    'what_i_ran': 'tools/confirm_seed.sh in the scratch worktree /tmp/seed/%s: demo passes without the change, fails with it; go build ./... ok; stable tests of the package still pass' % pid,
+    'what_i_ran': 'tools/confirm_seed.sh (tools/confirm_seed_mod.sh for a standalone demo module) in the scratch worktree /tmp/seed/%s: demo passes without the change, fails with it; go build ./... ok; stable tests of the package still pass' % pid,
     'check_run': 'tools/try_seed.sh %s /tmp/seed/%s (verifctl check against the worktree with the change applied, VERIF_REPO)' % (pid, pid),
     'detected': det, 'caught_by': label, 'note': note}
 json.dump(meta, open(f'{dst}/meta.json', 'w'), indent=1)
